@@ -48,12 +48,17 @@ class LifeSocket:
             raise OSError(errno.EBADF, "Bad file descriptor")
         return (self.bound[0], self.bound[1], 0, 0)
 
-    pending = []        # datagrams still to be delivered to a listening socket of this run
+    pending = []        # (datagram, sender address) still to be delivered to a listening socket of this run
+    eager = False       # deliver pending datagrams without giving other threads a turn first
 
     def _recv(self):
         if self.closed:
             raise OSError(errno.EBADF, "Bad file descriptor")
         s = sched._current
+        if LifeSocket.pending and self.bound is not None and LifeSocket.eager:
+            # requests that arrived back to back: the next one is already there when the loop comes round again
+            # (no other thread gets a turn in between unless a pre-emption says so)
+            return LifeSocket.pending.pop(0)
         if s is not None:
             s.yield_now()
         if LifeSocket.pending and self.bound is not None:
@@ -61,11 +66,11 @@ class LifeSocket:
         raise socket.timeout("timed out")
 
     def recvmsg(self, *a):
-        data = self._recv()
-        return data, [], 0, ("::1", 40000, 0, 0)
+        data, sender = self._recv()
+        return data, [], 0, sender
 
     def recvfrom(self, *a):
-        return self._recv(), ("::1", 40000, 0, 0)
+        return self._recv()
 
     def sendto(self, *a):
         return 0
@@ -75,6 +80,13 @@ class LifeSocket:
 
     def close(self):
         self.closed = True
+
+    def __enter__(self):
+        return self
+
+    def __exit__(self, *a):
+        self.close()
+        return False
 
 
 def _server_module():
@@ -89,8 +101,32 @@ def _run_once(case, preempt):
     n = len(case["threads"])
     LifeSocket.registry = []
     busy = int(case.get("busy", 0))
-    LifeSocket.pending = [b"\x00\x01busy\x00octet\x00"] if busy else []
+    LifeSocket.pending = [(b"\x00\x01busy\x00octet\x00", ("::1", 40000, 0, 0))] if busy else []
+    LifeSocket.eager = False
+    names = case.get("datagrams") or []
+    handled = []
+    if names:
+        # dispatch scenario (C10): several read requests arrive back to back, each from its own client port
+        LifeSocket.eager = True
+        for i, nm in enumerate(names):
+            dg = b"\x00\x01" + nm.encode() + b"\x00octet\x00"
+            LifeSocket.pending.append((dg, ("::1", 41000 + i, 0, 0)))
     events = []
+
+    class RecordingHandler(m.TftpRequestHandler):
+        """accepts everything, records what it was given and declines with FILE_NOT_FOUND"""
+
+        def prepare_context(self, filename):
+            return ("ctx", filename)
+
+        def can_handle(self, filename, context):
+            handled.append(["can_handle", filename, list(context) if isinstance(context, tuple) else context])
+            return True
+
+        def handle(self, filename, client_address, server_address, context):
+            handled.append(["handle", filename, list(context) if isinstance(context, tuple) else context,
+                            list(client_address)[:2]])
+            raise m.TftpError("recorded", m.ErrorCode.FILE_NOT_FOUND)
 
     class BusyHandler(m.TftpRequestHandler):
         """a handler that takes long to decide (many turns of the scheduler) and then declines"""
@@ -110,7 +146,8 @@ def _run_once(case, preempt):
     socket.socket = LifeSocket
     try:
         with sched.coop_locks():
-            srv = m.TftpServer([BusyHandler()] if busy else [], bind_address="::", bind_port=6969)
+            srv = m.TftpServer([RecordingHandler()] if names else [BusyHandler()] if busy else [], bind_address="::",
+                               bind_port=6969)
         with sched.coop_threads():
 
             the_lock = I.find_instance(srv, sched.CoopLock)
@@ -173,7 +210,8 @@ def _run_once(case, preempt):
     finally:
         socket.socket = _real_socket
     errors = [type(w.error).__name__ for w in s.workers if w.error is not None]
-    return {"results": results, "events": events, "final": s.finish_result, "deadlock": s.deadlock,
+    return {"results": results, "events": events, "final": s.finish_result, "deadlock": s.deadlock, "handled": handled,
+            "undelivered": len(LifeSocket.pending),
             "livelock": s.livelock, "timed_out": s.timed_out, "errors": errors, "steps": s.step,
             "switches": s.switches, "workers": len(s.workers), "trace": [list(t) for t in s.trace_points[:12]],
             "preempt": [list(p) for p in preempt]}
@@ -183,7 +221,7 @@ _steps_cache = {}
 
 
 def _total_steps(case):
-    key = json.dumps({k: case.get(k) for k in ("threads", "order", "busy")}, sort_keys=True)
+    key = json.dumps({k: case.get(k) for k in ("threads", "order", "busy", "datagrams")}, sort_keys=True)
     if key not in _steps_cache:
         _steps_cache[key] = _run_once(case, [])["steps"]
     return _steps_cache[key]
@@ -207,8 +245,8 @@ def run_case(case):
             for target in range(n + int(case.get("servers", 1))):
                 o = _run_once(case, [[step, target]] + [list(p) for p in case.get("preempt", [])])
                 runs += 1
-                key = json.dumps([o["results"], o["events"], o["final"], o["deadlock"], o["livelock"], o["errors"]],
-                                 sort_keys=True)
+                key = json.dumps([o["results"], o["events"], o["final"], o["deadlock"], o["livelock"], o["errors"],
+                                  o.get("handled")], sort_keys=True)
                 if key not in distinct:
                     distinct[key] = o
             if len(distinct) >= 40:
